@@ -254,17 +254,60 @@ func (w *World) cycleInvariants(c *cycleRec, tr *cyc.CycleTrace, phase string) {
 				}
 			}
 		}
+		// C05, closed loop: a source keeps the copy it was told to treat as in_transfer until the coordinator
+		// takes it away (whatever happens to the sidecar in between: the update was accepted, hence stored)
+		if e.Property == "C05" {
+			for _, s := range rep.Shards {
+				p := w.podByName(s.ID)
+				if p == nil || !p.Running || !s.StatusOK || s.Rep == nil {
+					continue
+				}
+				for _, k := range sortedKeys(w.lastTold) {
+					if !strings.HasPrefix(k, s.ID+"/") || w.lastTold[k] != "in_transfer" || w.toldPod[k] != p {
+						continue
+					}
+					addr := strings.TrimPrefix(k, s.ID+"/")
+					if _, has := s.Rep[w.hashOf[addr]]; !has {
+						e.Violate("world-source-lost-copy-during-move", "", "cycle %d: %s accepted an update that marks %s in_transfer and nothing has taken it away since, but its status no longer lists it", c.N, s.ID, addr)
+					}
+				}
+			}
+		}
 		// remember how many scrapes a pod had made when one of its copies was marked in_transfer
 		for _, s := range rep.Shards {
 			if s.Post == nil || !s.PostDelivered {
 				continue
 			}
 			for h, t := range s.Post {
-				if st, had := s.Rep[h]; had && st.TargetState == "" && t.TargetState == "in_transfer" {
-					w.markAt[s.ID+"/"+w.addrOf[h]] = w.scrapeFrom[w.addrOf[h]][s.ID]
+				k := s.ID + "/" + w.addrOf[h]
+				// the move begins when the shard is told in_transfer for a copy that it reports as normal,
+				// or that the last update it received told it to treat as normal
+				st, had := s.Rep[h]
+				last, told := w.lastTold[k]
+				if t.TargetState == "in_transfer" && ((had && st.TargetState == "") || (told && last == "")) {
+					w.markAt[k] = w.scrapeFrom[w.addrOf[h]][s.ID]
 				}
 				if t.TargetState == "" {
-					delete(w.markAt, s.ID+"/"+w.addrOf[h])
+					delete(w.markAt, k)
+				}
+				if s.PostStatus == 200 {
+					w.lastTold[k] = string(t.TargetState)
+					w.toldPod[k] = w.podByName(s.ID)
+				} else {
+					delete(w.lastTold, k) // a refused update: what the sidecar made of it is not this oracle's business
+				}
+			}
+			for k := range w.lastTold {
+				if strings.HasPrefix(k, s.ID+"/") {
+					gone := true
+					for h := range s.Post {
+						if k == s.ID+"/"+w.addrOf[h] {
+							gone = false
+						}
+					}
+					if gone {
+						delete(w.lastTold, k)
+					}
 				}
 			}
 		}
